@@ -36,7 +36,36 @@ def start_run(ctx, prog):
     return res, F, I, pcell
 
 
+def verify_prepend_summary(ctx, prog, rule="SUM.prepend"):
+    """the stand-in for path_prepend_cwd used in the process_start run says: NULL with errno set, or a fresh block"""
+    F = prog.fn("path_prepend_cwd")
+    I = new_interp(prog)
+    st = State()
+    for p in F.params:
+        st.mem[("v", F.gdid(p["did"]))] = fs(("str", "<argv0>"))
+    res = I.run(F, [st])
+    seen = set()
+    for s, rv in res.exits:
+        site, node = ret_site(F, s)
+        key = (site, s.mon.get("failed"), show(rv))
+        if key in seen:
+            continue
+        seen.add(key)
+        if rv == fs("NULL"):
+            ctx.ob(rule, "path_prepend_cwd: " + site, "NULL is returned only after a library call failed in this call, so that errno - which "
+                   "the caller turns into start's error code - is set (a NULL with errno 0 would make start report success without "
+                   "any child) and nothing stays allocated", s.mon.get("failed") is not None and not live_mem(s),
+                   {"failed_call": s.mon.get("failed")}, nontrivial=True)
+        else:
+            ctx.ob(rule, "path_prepend_cwd: " + site, "otherwise one live heap block is returned", "NULL" not in rv and
+                   all(isinstance(a, tuple) and a[0] == "mem" and s.res.get(a) == ("live",) for a in rv) and set(live_mem(s)) == set(rv),
+                   {"returns": show(rv)}, nontrivial=True)
+    if not seen:
+        raise AnalysisBroken("path_prepend_cwd has no exits")
+
+
 def verify_start_summary(ctx, prog, rule="SUM.start"):
+    verify_prepend_summary(ctx, prog)
     res, F, I, pcell = start_run(ctx, prog)
     classes = set()
     for st, rv in res.exits:
